@@ -33,13 +33,14 @@ type loopRT struct {
 	props   []string
 }
 
-var loopRTs = map[*Frame]map[int]*loopRT{}
-
 func (f *Frame) loopRT(h int) *loopRT {
-	m := loopRTs[f]
+	if f.e.loopRTs == nil {
+		f.e.loopRTs = map[*Frame]map[int]*loopRT{}
+	}
+	m := f.e.loopRTs[f]
 	if m == nil {
 		m = map[int]*loopRT{}
-		loopRTs[f] = m
+		f.e.loopRTs[f] = m
 	}
 	return m[h]
 }
@@ -56,10 +57,8 @@ func newEffects() *effects { return &effects{names: map[string]Sort{}} }
 func (f *Frame) loopHeader(li *loopInfo) {
 	e := f.e
 	rt := &loopRT{li: li, entryPh: map[*ssa.Phi]Value{}, headPh: map[*ssa.Phi]Value{}}
-	if loopRTs[f] == nil {
-		loopRTs[f] = map[int]*loopRT{}
-	}
-	loopRTs[f][li.header] = rt
+	f.loopRT(li.header)
+	f.e.loopRTs[f][li.header] = rt
 	for _, phi := range li.phis {
 		rt.entryPh[phi] = f.vals[phi]
 	}
